@@ -84,6 +84,11 @@ def _reduce_closures_in(fn: ast.AST, is_new) -> int:
         if a.vararg or a.kwarg or a.kwonlyargs or a.defaults or a.kw_defaults or a.posonlyargs:
             continue
         body = [s for s in g.body if not (isinstance(s, ast.Expr) and isinstance(s.value, ast.Constant) and isinstance(s.value.value, str))]
+        if body and not any(isinstance(n, (ast.Return, ast.Yield, ast.YieldFrom, ast.Await, ast.Nonlocal, ast.Global, ast.FunctionDef, ast.AsyncFunctionDef, ast.ClassDef, ast.Lambda)) for b in body for n in ast.walk(b)) and all(isinstance(b, (ast.Expr, ast.Raise, ast.If)) for b in body):
+            # a procedure-like closure (statements only, no result): `g(a..)` as a statement is those statements
+            if _reduce_procedure(fn, g, body):
+                count += 1
+            continue
         if len(body) != 1 or not isinstance(body[0], ast.Return) or body[0].value is None:
             continue
         expr = body[0].value
@@ -134,6 +139,50 @@ def _reduce_closures_in(fn: ast.AST, is_new) -> int:
         _set_parents(fn)
         count += 1
     return count
+
+
+def _reduce_procedure(fn: ast.AST, g: ast.FunctionDef, body: list[ast.stmt]) -> bool:
+    params = [p.arg for p in g.args.args]
+    if any(isinstance(n, ast.Name) and isinstance(n.ctx, (ast.Store, ast.Del)) for b in body for n in ast.walk(b)):
+        return False  # the closure binds locals of its own
+    uses = [n for n in ast.walk(fn) if isinstance(n, ast.Name) and n.id == g.name and not any(x is n for x in ast.walk(g))]
+    if not uses:
+        return False
+    sites = []
+    for u in uses:
+        c = getattr(u, "_parent", None)
+        e = getattr(c, "_parent", None)
+        if not (isinstance(u.ctx, ast.Load) and isinstance(c, ast.Call) and c.func is u and isinstance(e, ast.Expr) and e.value is c and len(c.args) == len(params) and not c.keywords and all(_pure(x) for x in c.args)):
+            return False
+        sites.append((e, c))
+    for p in params:
+        occ = [n for b in body for n in ast.walk(b) if isinstance(n, ast.Name) and n.id == p]
+        if len(occ) > 1 and any(not _simple(c.args[params.index(p)]) for _e, c in sites):
+            return False
+    for e, c in sites:
+        sub = dict(zip(params, c.args))
+
+        class R(ast.NodeTransformer):
+            def visit_Name(self, n: ast.Name):  # noqa: N802
+                if isinstance(n.ctx, ast.Load) and n.id in sub:
+                    return ast.copy_location(clone(sub[n.id]), n)
+                return n
+
+        new = [R().visit(clone(b)) for b in body]
+        for b in new:
+            for x in ast.walk(b):
+                if isinstance(x, (ast.expr, ast.stmt)):
+                    ast.copy_location(x, e)
+            ast.fix_missing_locations(b)
+        par = e._parent  # type: ignore[attr-defined]
+        for f in ("body", "orelse", "finalbody"):
+            v = getattr(par, f, None)
+            if isinstance(v, list) and e in v:
+                i = v.index(e)
+                v[i:i + 1] = new
+    _remove_stmt(g)
+    _set_parents(fn)
+    return True
 
 
 def _reduce_partials_in(fn: ast.AST) -> int:
